@@ -10,7 +10,9 @@ package rt
 
 import (
 	"bytes"
+	"io"
 	"io/fs"
+	"os"
 	"path"
 	"runtime"
 	"sort"
@@ -366,6 +368,7 @@ type Write struct {
 	Task int    `json:"task"`
 	Path string `json:"path"`
 	Data []byte `json:"-"`
+	Kind string `json:"kind"` // whole (os.WriteFile, rename) | write (transient) | sync | close
 }
 
 var (
@@ -393,17 +396,205 @@ func WriteFile(name string, data []byte, perm fs.FileMode) error {
 	}
 	// the simulated disk has exactly one directory, /tmp (where the CHF keeps its CDR
 	// files); like the real file system it refuses paths below directories that do not exist
+	if err := checkPath(name); err != nil {
+		return err
+	}
+	cp := append([]byte(nil), data...)
+	diskMu.Lock()
+	files[name] = cp
+	journal = append(journal, Write{At: at, Task: tid, Path: name, Data: cp, Kind: "whole"})
+	diskMu.Unlock()
+	return nil
+}
+
+// ---- file handles (os.OpenFile / os.Create and friends in instrumented code)
+
+// File replaces *os.File for files opened by instrumented code.
+type File struct {
+	name   string
+	flag   int
+	off    int64
+	closed bool
+}
+
+func checkPath(name string) error {
 	if clean := path.Clean(name); path.Dir(clean) != "/tmp" || strings.ContainsRune(name, 0) || path.Base(clean) == "tmp" {
 		return &fs.PathError{Op: "open", Path: name, Err: syscall.ENOENT}
 	}
 	if len(path.Base(name)) > 255 {
 		return &fs.PathError{Op: "open", Path: name, Err: syscall.ENAMETOOLONG}
 	}
-	cp := append([]byte(nil), data...)
+	return nil
+}
+
+// journalLocked records the current content of name (caller holds diskMu).
+func journalLocked(name, kind string) {
+	tid := -1
+	var at int64
+	if active.Load() {
+		if t := Current(); t != nil {
+			tid = t.ID
+		}
+		at = Now()
+	}
+	journal = append(journal, Write{At: at, Task: tid, Path: name, Data: append([]byte(nil), files[name]...), Kind: kind})
+}
+
+// OpenFile replaces os.OpenFile.
+func OpenFile(name string, flag int, perm fs.FileMode) (*File, error) {
+	if err := checkPath(name); err != nil {
+		return nil, err
+	}
 	diskMu.Lock()
-	files[name] = cp
-	journal = append(journal, Write{At: at, Task: tid, Path: name, Data: cp})
-	diskMu.Unlock()
+	defer diskMu.Unlock()
+	_, exists := files[name]
+	switch {
+	case !exists && flag&os.O_CREATE == 0:
+		return nil, &fs.PathError{Op: "open", Path: name, Err: syscall.ENOENT}
+	case exists && flag&os.O_CREATE != 0 && flag&os.O_EXCL != 0:
+		return nil, &fs.PathError{Op: "open", Path: name, Err: syscall.EEXIST}
+	}
+	if !exists {
+		files[name] = []byte{}
+	}
+	if flag&os.O_TRUNC != 0 && flag&(os.O_WRONLY|os.O_RDWR) != 0 {
+		files[name] = []byte{}
+	}
+	return &File{name: name, flag: flag}, nil
+}
+
+// Create replaces os.Create.
+func Create(name string) (*File, error) {
+	return OpenFile(name, os.O_RDWR|os.O_CREATE|os.O_TRUNC, 0o666)
+}
+
+// Open replaces os.Open.
+func Open(name string) (*File, error) { return OpenFile(name, os.O_RDONLY, 0) }
+
+func (f *File) Name() string { return f.name }
+
+func (f *File) Write(b []byte) (int, error) {
+	if f.closed {
+		return 0, fs.ErrClosed
+	}
+	if f.flag&(os.O_WRONLY|os.O_RDWR) == 0 {
+		return 0, &fs.PathError{Op: "write", Path: f.name, Err: syscall.EBADF}
+	}
+	diskMu.Lock()
+	defer diskMu.Unlock()
+	cur := files[f.name]
+	if f.flag&os.O_APPEND != 0 {
+		f.off = int64(len(cur))
+	}
+	end := f.off + int64(len(b))
+	if int64(len(cur)) < end {
+		cur = append(cur, make([]byte, end-int64(len(cur)))...)
+	}
+	copy(cur[f.off:end], b)
+	files[f.name] = cur
+	f.off = end
+	journalLocked(f.name, "write") // a transient state: more writes may follow before the file is consistent
+	return len(b), nil
+}
+
+func (f *File) WriteString(s string) (int, error) { return f.Write([]byte(s)) }
+
+func (f *File) WriteAt(b []byte, off int64) (int, error) {
+	save := f.off
+	f.off = off
+	n, err := f.Write(b)
+	f.off = save
+	return n, err
+}
+
+func (f *File) Read(b []byte) (int, error) {
+	if f.closed {
+		return 0, fs.ErrClosed
+	}
+	diskMu.Lock()
+	defer diskMu.Unlock()
+	cur := files[f.name]
+	if f.off >= int64(len(cur)) {
+		return 0, io.EOF
+	}
+	n := copy(b, cur[f.off:])
+	f.off += int64(n)
+	return n, nil
+}
+
+func (f *File) Seek(offset int64, whence int) (int64, error) {
+	diskMu.Lock()
+	defer diskMu.Unlock()
+	switch whence {
+	case io.SeekStart:
+		f.off = offset
+	case io.SeekCurrent:
+		f.off += offset
+	case io.SeekEnd:
+		f.off = int64(len(files[f.name])) + offset
+	}
+	return f.off, nil
+}
+
+func (f *File) Truncate(size int64) error {
+	diskMu.Lock()
+	defer diskMu.Unlock()
+	cur := files[f.name]
+	if int64(len(cur)) > size {
+		cur = cur[:size]
+	} else {
+		cur = append(cur, make([]byte, size-int64(len(cur)))...)
+	}
+	files[f.name] = cur
+	journalLocked(f.name, "write")
+	return nil
+}
+
+func (f *File) Sync() error {
+	diskMu.Lock()
+	defer diskMu.Unlock()
+	journalLocked(f.name, "sync")
+	return nil
+}
+
+func (f *File) Close() error {
+	if f.closed {
+		return fs.ErrClosed
+	}
+	f.closed = true
+	diskMu.Lock()
+	defer diskMu.Unlock()
+	if f.flag&(os.O_WRONLY|os.O_RDWR) != 0 {
+		journalLocked(f.name, "close")
+	}
+	return nil
+}
+
+// Remove replaces os.Remove.
+func Remove(name string) error {
+	diskMu.Lock()
+	defer diskMu.Unlock()
+	if _, ok := files[name]; !ok {
+		return &fs.PathError{Op: "remove", Path: name, Err: syscall.ENOENT}
+	}
+	delete(files, name)
+	return nil
+}
+
+// Rename replaces os.Rename.
+func Rename(oldpath, newpath string) error {
+	if err := checkPath(newpath); err != nil {
+		return err
+	}
+	diskMu.Lock()
+	defer diskMu.Unlock()
+	b, ok := files[oldpath]
+	if !ok {
+		return &fs.PathError{Op: "rename", Path: oldpath, Err: syscall.ENOENT}
+	}
+	delete(files, oldpath)
+	files[newpath] = b
+	journalLocked(newpath, "whole")
 	return nil
 }
 
